@@ -1,6 +1,7 @@
 package rules
 
 import (
+	"go/token"
 	"go/types"
 	"sort"
 	"strings"
@@ -180,6 +181,8 @@ func checkC20(c *Ctx) {
 	if nFields < 25 {
 		c.R.Break("only %d mutable fields of concurrent structs discovered; expected >= 25", nFields)
 	}
+	c20ProcessState(c)
+	c05LoopCapture(c, "R-loop-capture")
 }
 
 // publishByClose: see publishByCloseReason.
@@ -230,4 +233,43 @@ func publishByClose(c *Ctx, g *FieldGuard) bool {
 		}
 	}
 	return true
+}
+
+// ---------------------------------------------------------------- R-process-state
+// (*exec.Cmd).Wait writes Cmd.ProcessState (and Process's internal state) without synchronisation; the library calls
+// Wait in a dedicated watcher goroutine. Any other library code that reads ProcessState races with that write unless
+// it first learned that Wait has returned — in the same function it called Wait itself, or received from a channel.
+func c20ProcessState(c *Ctx) {
+	n := 0
+	for _, fn := range c.P.LibFns {
+		ir.EachInstr(fn, func(_ *ssa.BasicBlock, _ int, in ssa.Instruction) {
+			fa, ok := in.(*ssa.FieldAddr)
+			if !ok {
+				return
+			}
+			key, _, _, _ := ir.FullField(fa)
+			if key != "os/exec.Cmd.ProcessState" {
+				return
+			}
+			n++
+			ordered := false
+			ir.EachInstr(fn, func(_ *ssa.BasicBlock, _ int, x ssa.Instruction) {
+				switch y := x.(type) {
+				case *ssa.Call:
+					if ir.CallName(y) == "(*os/exec.Cmd).Wait" && flow.Dominates(y, fa) {
+						ordered = true
+					}
+				case *ssa.UnOp:
+					if y.Op == token.ARROW && flow.Dominates(y, fa) {
+						ordered = true
+					}
+				}
+			})
+			c.R.Check(ordered, "R-process-state", "exec.Cmd.ProcessState read in "+fname(fn), c.Pos(fa.Pos()), "read only after Wait returned in this goroutine / after a receive that orders it",
+				sprintf("%s reads exec.Cmd.ProcessState, which (*exec.Cmd).Wait writes in the process-watcher goroutine without synchronisation: polling it while the child exits is a data race", fname(fn)))
+		})
+	}
+	if n == 0 {
+		c.R.Hold("R-process-state", "no unsynchronised read of exec.Cmd.ProcessState", "", "the child's state is learned through the watcher's channel")
+	}
 }
